@@ -134,6 +134,10 @@ fn lifecycle(bytes: Vec<u8>, tx: mpsc::Sender<(String, String, String)>) {
     let sv = SourceView::new(text.clone().into());
     send("begin", "query".into(), kind);
     send("query", alloc_guard(n, || step(std::panic::AssertUnwindSafe(|| { query_all(&d, &sv, 0); "ok".to_string() }))), kind);
+    // the same queries against a minified text rich in astral characters and short lines
+    let sv2 = SourceView::new("x😍y😍z function a(){}😍😍 b\n😍\n\nfunction é(𝒳){return 𝒳}//😍😍😍😍😍😍😍😍\n".repeat(3).into());
+    send("begin", "query".into(), kind);
+    send("query", alloc_guard(n, || step(std::panic::AssertUnwindSafe(|| { query_all(&d, &sv2, 0); "ok".to_string() }))), kind);
     // serialise (guarded) and decode again
     send("begin", "serialize".into(), kind);
     let mut ser: Option<Vec<u8>> = None;
@@ -232,6 +236,8 @@ fn base_index() -> Value {
         {"offset": {"line": 9, "column": 0}, "map": base_hermes()}]})
 }
 fn big_vlq(which: &str) -> String {
+    if which == "13ones" { return "+///////////f".to_string(); }
+    if which == "13top" { return "ggggggggggggQ".to_string(); }
     let v: i64 = match which { "7digits" => (1 << 31) + 5, "13digits" => (1i64 << 62) - 1, "neg" => -77, _ => 1 << 32 };
     let syms = crate::c11::generate_own(&[v]);
     String::from_utf8(syms.iter().map(|&s| sym_to_byte(s)).collect()).unwrap()
@@ -396,7 +402,7 @@ pub fn gen(rng: &mut Rng, size: usize) -> Value {
                     1 => json!({"f": "type", "key": *rng.pick(&keys), "as": *rng.pick(&["num", "str", "obj", "true"])}),
                     2 => json!({"f": "len", "key": *rng.pick(&["sourcesContent", "x_facebook_sources", "ignoreList", "names", "sources"]), "as": *rng.pick(&["short", "long", "empty"])}),
                     3 => json!({"f": "num", "key": *rng.pick(&["offset.line", "offset.column", "ignoreList", "version"]), "as": *rng.pick(&["0", "2^31", "2^32-1", "2^32", "-1"])}),
-                    4 => json!({"f": "vlq", "key": *rng.pick(&["dst_col", "src_id", "src_line", "src_col", "name_id"]), "as": *rng.pick(&["7digits", "13digits", "neg", "2^32"])}),
+                    4 => json!({"f": "vlq", "key": *rng.pick(&["dst_col", "src_id", "src_line", "src_col", "name_id"]), "as": *rng.pick(&["7digits", "13digits", "neg", "2^32", "13ones", "13top"])}),
                     5 => json!({"f": "hermes", "key": "x_facebook_sources", "as": *rng.pick(&["badvlq", "bigname", "nometa", "extra", "neg", "sparse"])}),
                     _ => json!({"f": "nest", "key": "sections", "as": *rng.pick(&["1", "8", "200"])}),
                 });
